@@ -35,3 +35,22 @@ package parser
 //@   ensures err == nil ==> prog != nil && wf(Node(prog))
 //@   ensures err != nil ==> prog == nil
 //@   modifies nothing
+
+// ---- C08: diagnostics are appended in an order fixed by the source text ----
+
+//@ func (p *parser) appendErrorForToken(message string, token *lexer.Token)
+//@   props C08 C02
+//@   requires[token-not-nil] token != nil
+//@   ensures[C08 appended] len(p.errors) == old(len(p.errors)) + 1 && p.errors[len(p.errors)-1] != nil && p.errors[len(p.errors)-1].token == token && p.errors[len(p.errors)-1].message == message
+//@   ensures[C08 earlier-kept] forall(i, int, 0 <= i && i < old(len(p.errors)) ==> p.errors[i] == old(p.errors[i]))
+//@   modifies p.errors, class elem:*parser.Error
+//@   opt modclasses parser.parser.errors, elem:*parser.Error
+
+// validateScope reports every unused variable of the scope being closed. The errors must come out in source
+// order (C08: "Parse errors (text and order) ... are a function of the source text"): stated over the call log.
+//@ func (p *parser) validateScope()
+//@   props C08
+//@   requires p.scope != nil && forall(k, string, has(p.scope.vars, k) ==> p.scope.vars[k] != nil && p.scope.vars[k].token != nil)
+//@   ensures[C08 unused-in-source-order] forall(j, int, 1 <= j && j < ncalls("(*parser).appendErrorForToken") ==> callarg("(*parser).appendErrorForToken", j, 2).Offset < callarg("(*parser).appendErrorForToken", j + 1, 2).Offset)
+//@   modifies p.errors, class elem:*parser.Error
+//@   loop 1 invariant forall(j, int, 1 <= j && j < ncalls("(*parser).appendErrorForToken") ==> callarg("(*parser).appendErrorForToken", j, 2).Offset < callarg("(*parser).appendErrorForToken", j + 1, 2).Offset)
